@@ -157,9 +157,31 @@ fn gen_block_triple(r: &mut Rng) -> Option<(fol::Formula, fol::Variable, fol::Ge
     Some((f, var, term))
 }
 
+/// two integer binders B, B1 that both occur in the term while B2..Bk are free in the body: the
+/// first fresh candidates of B (B1, B2, ...) are taken, so that the fresh names of the two
+/// binders are drawn from overlapping candidate sequences (B -> B11, B1 -> B11)
+fn gen_ladder_triple(r: &mut Rng) -> Option<(fol::Formula, fol::Variable, fol::GeneralTerm)> {
+    let base = ["X", "N", "I"][r.upto(3)];
+    let top = 8 + r.upto(5); // B2..B<top>, top in 8..12
+    let ladder: Vec<String> = (2..=top).map(|i| format!("{base}{i}$i")).collect();
+    let q = ["exists", "forall"][r.upto(2)];
+    let (b0, b1) = (format!("{base}$i"), format!("{base}1$i"));
+    let binders = if r.chance(1, 2) { format!("{b0} {b1}") } else { format!("{b1} {b0}") };
+    let rel = ["<", "!=", "=", ">="][r.upto(4)];
+    let text = format!("{q} {binders} (w3({b0}, {b1}, W$i) {} {} {rel} {b0} - {b1})", ["and", "or", "->"][r.upto(3)], ladder.join(" + "));
+    let f = parse_formula(&text).ok()?;
+    let var: fol::Variable = "W$i".parse().ok()?;
+    let tt = [format!("{b0} + {b1}"), format!("{b1} * {b0}"), format!("{b0} - {b1} + 1")][r.upto(3)].clone();
+    let term: fol::GeneralTerm = tt.parse().ok()?;
+    Some((f, var, term))
+}
+
 fn gen_triple(r: &mut Rng, depth: u32) -> Option<(fol::Formula, fol::Variable, fol::GeneralTerm)> {
     if r.chance(1, 3) {
         return gen_block_triple(r);
+    }
+    if r.chance(1, 10) {
+        return gen_ladder_triple(r);
     }
     let mut o = FolOpts::default();
     o.depth = depth;
